@@ -385,6 +385,20 @@ func BuildGenome(t *Tape, spec GenomeSpec) *genetics.Genome {
 			}
 		}
 	}
+	if !spec.FeedForwardOnly && t.Chance("parallelTwin", 1, 6) {
+		// two links between the same ordered pair of neurons, one forward and one recurrent-flagged (what add-link
+		// produces when it draws the same pair once for a forward and once for a recurrent link)
+		var fwd []*genetics.Gene
+		for _, g := range genes {
+			if !g.Link.IsRecurrent && !g.Link.InNode.IsSensor() {
+				fwd = append(fwd, g)
+			}
+		}
+		if len(fwd) > 0 {
+			src := fwd[t.Draw("parallelTwin.src", len(fwd))]
+			addGene(src.Link.InNode, src.Link.OutNode, true, true)
+		}
+	}
 	if len(genes) == 0 {
 		addGene(sensors[0], outs[0], false, true)
 		genes[0].IsEnabled = true
